@@ -1,6 +1,7 @@
 package props
 
 import (
+	"time"
 	"fmt"
 	"os"
 	"path/filepath"
@@ -89,3 +90,5 @@ func trunc(s string, n int) string {
 	}
 	return s
 }
+
+type timeT = time.Time
